@@ -22,7 +22,7 @@ pub fn property() -> Property {
     Property {
         id: "C19",
         level: "exploration",
-        rule: "process-level histories, each in a fresh child process: whether the built-in default scheme was used before (as bin/client.rs does) or the client was configured with its own scheme; 1-4 sessions of one real Client against the scripted reference server (which sees the client's plaintext), the server's scheme per connection chosen from a family of schemes with pairwise distinct fixed sizes per line (so that a packet's total size names the scheme and the line that shaped it) or an unparsable scheme (no stop, non-numeric stop, binary); 1-5 small writes per session. Oracles: adopt - after a push, the remaining packets of that session below stop are sized by the pushed scheme; next - every later session announces the pushed scheme's md5, shapes preamble and packets by it and is not pushed again; again - the same for the 2nd, 3rd push; bad - an unparsable push leaves shaping, md5 and stream service untouched. Non-trivial = a push after the default was initialised, or a second push, or a second session. Distinct = distinct serialized case. The serverpush family also varies how the server's scheme text ends (nothing, LF, CRLF, two spaces, LF LF) and compares the pushed bytes with that exact text (the md5 the server will compare the next announcement with).",
+        rule: "process-level histories, each in a fresh child process: whether the built-in default scheme was used before (as bin/client.rs does) or the client was configured with its own scheme; 1-4 sessions of one real Client against the scripted reference server (which sees the client's plaintext), the server's scheme per connection chosen from a family of schemes with pairwise distinct fixed sizes per line (so that a packet's total size names the scheme and the line that shaped it) or an unparsable scheme (no stop, non-numeric stop, binary); 1-5 small writes per session. Oracles: adopt - after a push, the remaining packets of that session below stop are sized by the pushed scheme; next - every later session announces the pushed scheme's md5, shapes preamble and packets by it and is not pushed again; again - the same for the 2nd, 3rd push; bad - an unparsable push leaves shaping, md5 and stream service untouched. Non-trivial = a push after the default was initialised, or a second push, or a second session. Distinct = distinct serialized case. The serverpush family also varies how the server's scheme text ends (nothing, LF, CRLF, two spaces, LF LF) and compares the pushed bytes with that exact text (the md5 the server will compare the next announcement with). Family `midwrite` (Lab-M; the process-wide default scheme makes its cases take turns): client session with scheme Fam(a), destination written, then the peer stops reading, a write of 0 / 300 / 5000 / 20000 / 70000 bytes is parked in a transport of capacity 64 / 256 / 4096, the peer sends UpdatePaddingScheme(Fam(b)), reads again; the following packets (payloads 1-1500) must put exactly Fam(b)'s line-k size on the transport.",
         assumptions: vec![
             "the reference server's view of the plaintext (frame sequence); a packet = the frames up to and including its padding frame (all sizes are chosen so that every packet below stop ends in exactly one padding frame)",
             "one child process per history; kernel loopback",
